@@ -34,6 +34,7 @@
 #include <list>
 #include <map>
 #include <memory>
+#include <optional>
 #include <sstream>
 #include <stdexcept>
 #include <string>
@@ -360,6 +361,8 @@ private:
     /** Parse optional label. */
     bool label(bool required = false, const std::string& kind = "");
     int invariant();
+    /** Text and XPath of an exponentialrate label met before the invariant label of the same location. */
+    std::optional<std::pair<std::string, std::string>> deferredRate;
     /** Parse optional committed tag. */
     bool committed();
     /** Parse optional urgent tag. */
@@ -624,8 +627,9 @@ int XMLReader::invariant()
                 if (parse(text, S_INVARIANT) == 0)
                     result = 0;
             } else if (kind_sv == "exponentialrate") {
-                if (parse(text, S_EXPONENTIAL_RATE) == 0)
-                    result = 1;
+                // proc_location() expects the invariant below the rate on the expression stack, but the
+                // labels may come in either order: the rate is parsed after all labels have been seen.
+                deferredRate.emplace((const char*)text, path.str());
             }
         }
         xmlFree(kind);
@@ -746,10 +750,15 @@ bool XMLReader::location()
             /* Get name of the location. */
             std::string l_name = name();
             /* Read the invariant. */
+            deferredRate.reset();
             while (begin(tag_t::LABEL)) {
                 int res = invariant();
                 l_invariant |= res == 0;
-                l_exponentialRate |= res == 1;
+            }
+            if (deferredRate) {
+                l_exponentialRate =
+                    parse_XTA(deferredRate->first.c_str(), parser, newxta, S_EXPONENTIAL_RATE, deferredRate->second) == 0;
+                deferredRate.reset();
             }
             /* Is the location urgent or committed? */
             bool l_urgent = urgent();
